@@ -6,6 +6,9 @@
 (*   Sub(s, t)            subscription s accepted, its priming report opens *)
 (*   Begin(s, t)          a report to s is started                          *)
 (*   Deliver(s, p, v)     version v of path p is put into the open report   *)
+(*   Event                a subscribed event occurred (events are numbered  *)
+(*                        1, 2, .. in order of occurrence)                  *)
+(*   DeliverEv(s, lo, hi) the events lo+1 .. hi are put into the open report *)
 (*   End(s, r, t)         the open report of s ends: r = "ok" (subscriber   *)
 (*                        confirmed), "fail" (did not reach it, retry),     *)
 (*                        "drop" (subscription ended)                       *)
@@ -25,19 +28,30 @@ Fresh == [ver    |-> [p \in Paths |-> 0],
           cur    |-> [s \in Subs |-> NoRep],   \* content of the open report (path -> version)
           open   |-> {},                       \* subscriptions with an open report
           failed |-> [s \in Subs |-> {}],      \* paths carried by reports to s that did not get through
-          lastOk |-> [s \in Subs |-> -1]]      \* time of the last confirmed report
+          lastOk |-> [s \in Subs |-> -1],      \* time of the last confirmed report
+          nev    |-> 0,                        \* number of events that occurred so far
+          evKnown |-> [s \in Subs |-> 0],      \* every event up to this number was reported to s and confirmed
+          evCur  |-> [s \in Subs |-> -1],      \* upper end of the event range carried by the open report (-1 = none)
+          evFailed |-> [s \in Subs |-> FALSE]] \* a report carrying events did not get through
 
 ChangeOk(p, st)  == TRUE
 AfterChange(p, st) == [st EXCEPT !.ver[p] = @ + 1]
 
 SubOk(s, t, st) == s \notin st.live
 AfterSub(s, t, st) == [st EXCEPT !.live = @ \cup {s}, !.open = @ \cup {s}, !.cur[s] = NoRep,
-                                 !.known[s] = [p \in Paths |-> -1], !.failed[s] = {}, !.lastOk[s] = -1]
+                                 !.known[s] = [p \in Paths |-> -1], !.failed[s] = {}, !.lastOk[s] = -1,
+                                 !.evKnown[s] = 0, !.evCur[s] = -1, !.evFailed[s] = FALSE]
 
 \* MinInterval: a report to a primed subscription is not started before MinInt after the last confirmed one
 BeginOk(s, t, st) == /\ s \in st.live /\ s \notin st.open
                      /\ (s \in st.primed => t >= st.lastOk[s] + MinInt)
-AfterBegin(s, t, st) == [st EXCEPT !.open = @ \cup {s}, !.cur[s] = NoRep]
+AfterBegin(s, t, st) == [st EXCEPT !.open = @ \cup {s}, !.cur[s] = NoRep, !.evCur[s] = -1]
+
+EventOk(st) == TRUE
+AfterEvent(st) == [st EXCEPT !.nev = @ + 1]
+\* the report carries exactly the events the subscriber has not confirmed yet, up to some event that did occur
+DeliverEvOk(s, lo, hi, st) == s \in st.open /\ lo = st.evKnown[s] /\ lo <= hi /\ hi <= st.nev
+AfterDeliverEv(s, lo, hi, st) == [st EXCEPT !.evCur[s] = hi]
 
 \* a report carries the current value
 DeliverOk(s, p, v, st) == s \in st.open /\ v = st.ver[p]
@@ -47,10 +61,13 @@ EndOk(s, r, t, st) ==
   /\ s \in st.open
   /\ st.failed[s] \subseteq DOMAIN st.cur[s]                     \* RetrySameContent: what failed is sent again
   /\ (r = "ok" /\ s \notin st.primed) => DOMAIN st.cur[s] = Paths   \* the priming report carries everything
+  /\ (st.evFailed[s] /\ r # "drop") => st.evCur[s] # -1              \* events of a failed report are sent again
 AfterEnd(s, r, t, st) ==
   IF r = "ok" THEN [st EXCEPT !.open = @ \ {s}, !.primed = @ \cup {s}, !.failed[s] = {}, !.lastOk[s] = t,
+                              !.evKnown[s] = IF st.evCur[s] # -1 THEN st.evCur[s] ELSE @, !.evFailed[s] = FALSE,
                               !.known[s] = [p \in Paths |-> IF p \in DOMAIN st.cur[s] THEN st.cur[s][p] ELSE @[p]]]
-  ELSE IF r = "fail" THEN [st EXCEPT !.open = @ \ {s}, !.failed[s] = @ \cup DOMAIN st.cur[s]]
+  ELSE IF r = "fail" THEN [st EXCEPT !.open = @ \ {s}, !.failed[s] = @ \cup DOMAIN st.cur[s],
+                                     !.evFailed[s] = @ \/ (st.evCur[s] # -1 /\ st.evCur[s] > st.evKnown[s])]
   ELSE [st EXCEPT !.open = @ \ {s}, !.live = @ \ {s}, !.primed = @ \ {s}]
 
 GoneOk(s, st) == s \in st.live
@@ -66,4 +83,5 @@ WakeOk(w, st) == \A s \in st.primed \ st.open : w < st.lastOk[s] + MaxInt
 \* NoLostUpdate: at quiescence every live subscriber knows the current value of every subscribed path
 QuietOk(st) == /\ st.open = {}
                /\ \A s \in st.live : \A p \in Paths : st.known[s][p] = st.ver[p]
+               /\ \A s \in st.live : st.evKnown[s] = st.nev                  \* ... and of every event
 =============================================================================
